@@ -309,6 +309,9 @@ class Session:
         if name == "fill_in_let":
             return lambda: fill_in_let(c)
         if name == "fill_in_let_O":
+            if getattr(self, "share_override_objects", False):
+                # the caller's own dictionary object, the same one for every call
+                return lambda: fill_in_let(c, override_dict=override)
             return lambda: fill_in_let(c, override_dict=dict(override or {}))
         if name == "expand_subcircuits":
             return lambda: expand_subcircuits(c)
@@ -891,6 +894,8 @@ def plan_c16(run_seed):
             if calls:
                 c_ = t.choice(calls)
                 rn = e["prog"]["reg"][0] if e["prog"].get("reg") else "q"
+                if len(c_["args"]) >= 2 and t.chance(0.35):
+                    c_["args"][0], c_["args"][1] = c_["args"][1], c_["args"][0]  # swapped arguments
                 c_["args"][t.randrange(len(c_["args"]))] = t.choice([["num", 1.5], ["num", 2.0], ["num", 1], ["id", rn], ["item", rn, 0], ["num", -1], ["raw", "1.0e999"], ["raw", "-2.0E+400"]])
                 e["exec"] = False
         if t.chance(0.12):
@@ -1479,8 +1484,10 @@ def exec_c10(plan):
     S = Session(plan, st)
     hist = []
     try:
-        O = plan["override"] or {}
-        OVS = [O, plan.get("override2") if plan.get("override2") is not None else O]
+        O = dict(plan["override"] or {})
+        OVS = [O, dict(plan["override2"]) if plan.get("override2") is not None else O]
+        S.share_override_objects = True
+        ovs_before = [dict(x) for x in OVS]
         seq_ov = plan.get("seq_override") or [0] * len(plan["sequences"])
         text = S.text(0)
         kw0 = S.parse_kwargs(0, {})
@@ -1638,6 +1645,8 @@ def exec_c10(plan):
                 if lib_eq is False or (va is not None and vb is not None and va != vb):
                     S.viol.add("C10", "parser_flags_equal_passes", "mismatch", "", "flags %r differ from passes %s" % (sorted(flags), "".join(toks)), op=None)
                 S.probe("flags_compared")
+        if [dict(x) for x in OVS] != ovs_before:
+            S.viol.add("C10", "override_dictionary_unchanged", "mutated", "fill_in_let", "the caller's override dictionary was modified: %r -> %r" % (ovs_before, OVS), op=None)
         S.log.append(hexdigest([(tuple(s), snapshot.digest(c)) for s, c, _ in finals]))
         rec = finish(S, plan, st, hist)
     finally:
